@@ -95,7 +95,8 @@ package linear
 // large) for every 0 <= workerNum < workerCount; they tie the offsets computed here to what the step contracts assume.
 
 //@ func TransformImageColor
-//@   scenario rgba64-from-rgba64 rgba64-from-any rgba-from-any
+//@   scenario rgba64-from-rgba64 rgba64-from-any rgba-from-any any-from-any
+//@   requires case=any-from-any sane-coordinates: -0x40000000 <= src.Bounds().Min.X && src.Bounds().Min.X <= src.Bounds().Max.X && src.Bounds().Max.X <= 0x40000000 && -0x40000000 <= src.Bounds().Min.Y && src.Bounds().Min.Y <= src.Bounds().Max.Y && src.Bounds().Max.Y <= 0x40000000
 //@   dyn rgba64-from-rgba64 dst *image.RGBA64
 //@   dyn rgba64-from-rgba64 src *image.RGBA64
 //@   dyn rgba64-from-any dst *image.RGBA64
@@ -106,6 +107,28 @@ package linear
 //@   requires case=rgba64-from-any destination-at-least-as-large: src.Bounds().Max.X - src.Bounds().Min.X <= dyn(dst).Rect.Max.X - dyn(dst).Rect.Min.X && src.Bounds().Max.Y - src.Bounds().Min.Y <= dyn(dst).Rect.Max.Y - dyn(dst).Rect.Min.Y
 //@   requires case=rgba-from-any sane-coordinates: -0x40000000 <= src.Bounds().Min.X && src.Bounds().Min.X <= src.Bounds().Max.X && src.Bounds().Max.X <= 0x40000000 && -0x40000000 <= src.Bounds().Min.Y && src.Bounds().Min.Y <= src.Bounds().Max.Y && src.Bounds().Max.Y <= 0x40000000 && -0x40000000 <= dyn(dst).Rect.Min.X && dyn(dst).Rect.Min.X <= dyn(dst).Rect.Max.X && dyn(dst).Rect.Max.X <= 0x40000000 && -0x40000000 <= dyn(dst).Rect.Min.Y && dyn(dst).Rect.Min.Y <= dyn(dst).Rect.Max.Y && dyn(dst).Rect.Max.Y <= 0x40000000
 //@   requires case=rgba-from-any destination-at-least-as-large: src.Bounds().Max.X - src.Bounds().Min.X <= dyn(dst).Rect.Max.X - dyn(dst).Rect.Min.X && src.Bounds().Max.Y - src.Bounds().Min.Y <= dyn(dst).Rect.Max.Y - dyn(dst).Rect.Min.Y
+//@   ensures [C10] returns: true
+
+// In-place use (src == dst, possible on the RGBA64-from-RGBA64 path): the same step contracts, with the captured
+// source and destination being one image. Each iteration reads its pixel before writing it (prev(...) in the clauses).
+//@ func TransformImageColor$1
+//@   scenario inplace
+//@   alias inplace dstImg srcImg
+//@   requires case=inplace same-origin: dstOffsetX == 0 && dstOffsetY == 0
+
+// The generic path: dst is any draw.Image. Its pixels are a ghost store keyed by (x, y) that records the colour
+// handed to Set: each iteration calls dst.Set exactly at (j+dx, i+dy) with transformColor(src.At(j, i)), nothing else.
+//@ func TransformImageColor$4
+//@   requires workers: 0 <= workerNum && workerNum < workerCount && workerCount <= 0x10000
+//@   requires sane-coordinates: -0x40000000 <= bounds.Min.X && bounds.Min.X <= bounds.Max.X && bounds.Max.X <= 0x40000000 && -0x40000000 <= bounds.Min.Y && bounds.Min.Y <= bounds.Max.Y && bounds.Max.Y <= 0x40000000
+//@   loop 1 invariant [C10,C11] rows-of-this-worker: bounds.Min.Y + workerNum <= i && (iter == 0 ==> i == bounds.Min.Y + workerNum)
+//@   loop 1 step [C10,C11] next-row-of-this-worker: i == prev(i) + workerCount
+//@   loop 1 decreases bounds.Max.Y + workerCount - i
+//@   loop 2 invariant [C10,C11] columns: bounds.Min.X <= j && j <= bounds.Max.X
+//@   loop 2 step [C10] pixel-set: was_set(dst, prev(j) + dstOffsetX, i + dstOffsetY) && last_set(dst, prev(j) + dstOffsetX, i + dstOffsetY) == transformColor(src.At(prev(j), i))
+//@   loop 2 step [C10,C11] only-that-pixel: forall x int, y int :: !(x == prev(j) + dstOffsetX && y == i + dstOffsetY) ==> was_set(dst, x, y) == prev(was_set(dst, x, y)) && last_set(dst, x, y) == prev(last_set(dst, x, y))
+//@   loop 2 step [C10] next-column: j == prev(j) + 1
+//@   loop 2 decreases bounds.Max.X - j
 //@   ensures [C10] returns: true
 
 // ---- end of dispatch level ----
